@@ -22,7 +22,7 @@ def key(case, variant, tag, step):
 def variants(idx):
     return dict(engine=["joblib", "h5netcdf"][idx % 5 == 0], ext=[True, False, True, "dotted"][idx % 4], via_add_ds=(idx % 4 == 2),
                 other_harvester=(idx % 2 == 1), percall_engine=(idx % 3 == 2),
-                offset=[0, 10 ** 9, 0][idx % 3], second_var=(idx % 2 == 0), close_coords=(idx % 4 == 1), late_float=(idx % 10 in (5, 3)))
+                offset=[0, 10 ** 9, 0][idx % 3], second_var=(idx % 2 == 0), close_coords=(idx % 4 == 1), late_float=(idx % 10 in (5, 3)), int_first=(idx % 3 == 0), bool_attrs=(idx % 5 in (0, 2)))
 
 
 def run(rep):
